@@ -32,7 +32,7 @@ namespace ST
     class unicode_error : public std::runtime_error
     {
     public:
-        explicit unicode_error(const char *message) noexcept
+        explicit unicode_error(const char *message)
             : std::runtime_error(message)
         { }
     };
@@ -40,7 +40,7 @@ namespace ST
     class codec_error : public std::runtime_error
     {
     public:
-        explicit codec_error(const char *message) noexcept
+        explicit codec_error(const char *message)
             : std::runtime_error(message)
         { }
     };
@@ -48,7 +48,7 @@ namespace ST
     class bad_format : public std::invalid_argument
     {
     public:
-        explicit bad_format(const char *message) noexcept
+        explicit bad_format(const char *message)
             : std::invalid_argument(message)
         { }
     };
